@@ -28,7 +28,7 @@ static long acc = 0, rej = 0;
 static const char* g_only = nullptr;
 static void run(const char* name, const bytes& img, std::function<void(const bytes&)> use, size_t stream_limit = 8) {
   if (g_only && std::strcmp(g_only, name)) return;
-  const size_t pre = img.size() < 48 ? img.size() : 48;
+  const size_t pre = img.size() < 72 ? img.size() : 72;
   for (size_t pos = 0; pos < pre; ++pos) {
     const uint8_t orig = img[pos];
     const int vals[] = {0, 1, 2, 3, 0x7f, 0x80, 0xfe, 0xff, orig + 1, orig - 1, orig ^ 0x10, orig ^ 0x04};
@@ -45,7 +45,7 @@ template<typename S> bytes ser(const S& s) { auto b = s.serialize(); return byte
 int main(int argc, char** argv) {
   std::setvbuf(stdout, nullptr, _IONBF, 0);
   if (argc > 1) g_only = argv[1];
-  for (int n: {0, 1, 3, 100, 5000}) {
+  for (int n: {0, 1, 3, 9, 100, 5000, 120000}) {
     { auto s = update_theta_sketch::builder().set_lg_k(8).build(); for (int i = 0; i < n; ++i) s.update(i);
       run("theta", ser(s.compact()), [](const bytes& b) { auto d = compact_theta_sketch::deserialize(b.data(), b.size()); (void) d.get_estimate(); for (auto h: d) (void) h; auto r = d.serialize(); (void) d.to_string(true); });
       run("theta_compressed", [&] { auto b = s.compact().serialize_compressed(); return bytes(b.begin(), b.end()); }(), [](const bytes& b) { auto d = compact_theta_sketch::deserialize(b.data(), b.size()); (void) d.get_estimate(); for (auto h: d) (void) h; });
